@@ -5,8 +5,134 @@ import copy
 from .core import AnalysisError
 
 
+class Src(str):
+    """
+    source text of a node that remembers the node: `"fragment" in src(node)` first tries the plain substring test and, when that fails, a
+    structural match of the fragment against the subtrees of the node modulo a consistent renaming of names that NO LONGER OCCUR in the node
+    (a renamed local variable must not look like a removed construct). Names that still occur must match literally, so on an unchanged
+    function the test is exactly the substring test.
+    """
+    node = None
+
+    def __contains__(self, item):
+        if str.__contains__(self, item):
+            return True
+        if self.node is None or not isinstance(item, str):
+            return False
+        if not isinstance(self.node, (ast.FunctionDef, ast.AsyncFunctionDef, ast.ClassDef, ast.Module)):
+            return False  # classifiers over small nodes keep the plain substring meaning
+        try:
+            return contains_mod_rename(self.node, item)
+        except RecursionError:
+            return False
+
+
 def src(node):
-    return ast.unparse(node) if node is not None else ''
+    if node is None:
+        return ''
+    s = Src(ast.unparse(node))
+    s.node = node
+    return s
+
+
+def _parse_fragment(text):
+    """-> list of pattern nodes (an expression, or statements; headers like `if x` / `for a in b` become header-only patterns)"""
+    text = text.strip()
+    try:
+        m = ast.parse(text)
+        if len(m.body) == 1 and isinstance(m.body[0], ast.Expr):
+            return 'expr', m.body[0].value
+        return 'stmts', m.body
+    except SyntaxError:
+        pass
+    for kw in ('if ', 'elif ', 'while ', 'for '):
+        if text.startswith(kw):
+            t = text[2:] if kw == 'elif ' else text
+            try:
+                m = ast.parse(t.rstrip(':') + ':\n    pass')
+                return 'header', m.body[0]
+            except SyntaxError:
+                return None, None
+    return None, None
+
+
+def _unify(p, a, env, present):
+    if type(p) is not type(a):
+        return False
+    if isinstance(p, ast.Name):
+        if p.id == a.id:
+            return env.setdefault(p.id, a.id) == a.id
+        if p.id in present:
+            return False  # the pattern name still exists in the function: it must match literally
+        if a.id in env.values() and env.get(p.id) != a.id:
+            return False
+        return env.setdefault(p.id, a.id) == a.id
+    if isinstance(p, ast.arg):
+        return _unify(ast.Name(id=p.arg, ctx=ast.Load()), ast.Name(id=a.arg, ctx=ast.Load()), env, present)
+    for f in p._fields:
+        if f in ('ctx', 'type_comment', 'lineno', 'col_offset', 'end_lineno', 'end_col_offset', 'kind'):
+            continue
+        x, y = getattr(p, f, None), getattr(a, f, None)
+        if isinstance(x, list):
+            if not isinstance(y, list) or len(x) != len(y):
+                return False
+            for i, j in zip(x, y):
+                if isinstance(i, ast.AST):
+                    if not _unify(i, j, env, present):
+                        return False
+                elif i != j:
+                    return False
+        elif isinstance(x, ast.AST):
+            if not isinstance(y, ast.AST) or not _unify(x, y, env, present):
+                return False
+        elif x != y:
+            return False
+    return True
+
+
+def contains_mod_rename(node, text):
+    kind, pat = _parse_fragment(text)
+    if kind is None:
+        return False
+    present = {n.id for n in ast.walk(node) if isinstance(n, ast.Name)} | {n.arg for n in ast.walk(node) if isinstance(n, ast.arg)}
+    pnodes = [n for p_ in (pat if isinstance(pat, list) else [pat]) for n in ast.walk(p_) if not isinstance(n, (ast.Load, ast.Store, ast.Del, ast.Pass))]
+    anchors = [n for n in pnodes if isinstance(n, (ast.Attribute, ast.Constant, ast.keyword)) or (isinstance(n, ast.Name) and n.id in present)]
+    if kind == 'header':
+        if len(pnodes) < 4 or len(anchors) < 1:
+            return False
+    elif len(pnodes) < 6 or len(anchors) < 2:
+        return False  # too small to be recognised modulo renaming without matching unrelated code
+    if kind == 'expr':
+        for c in ast.walk(node):
+            if type(c) is type(pat) and _unify(pat, c, {}, present):
+                return True
+        return False
+    if kind == 'header':
+        for c in ast.walk(node):
+            if type(c) is type(pat):
+                env = {}
+                ok = _unify(pat.test, c.test, env, present) if isinstance(pat, (ast.If, ast.While)) else \
+                    (_unify(pat.target, c.target, env, present) and _unify(pat.iter, c.iter, env, present))
+                if ok:
+                    return True
+        if isinstance(pat, ast.If):  # `if <test>` also names the filter of a comprehension / a conditional expression
+            for c in ast.walk(node):
+                tests = list(c.ifs) if isinstance(c, ast.comprehension) else [c.test] if isinstance(c, ast.IfExp) else []
+                for t in tests:
+                    if _unify(pat.test, t, {}, present):
+                        return True
+        return False
+    # statement sequence: must occur as consecutive statements of some block
+    for c in ast.walk(node):
+        for fld in ('body', 'orelse', 'finalbody'):
+            blk = getattr(c, fld, None)
+            if not isinstance(blk, list) or len(blk) < len(pat):
+                continue
+            for i in range(len(blk) - len(pat) + 1):
+                env = {}
+                if all(isinstance(blk[i + k], ast.AST) and _unify(pat[k], blk[i + k], env, present) for k in range(len(pat))):
+                    return True
+    return False
 
 
 def if_chain(node):
@@ -131,3 +257,216 @@ def terminates(body):
     if isinstance(last, ast.With):
         return terminates(last.body)
     return False
+
+
+def single_defs(fn):
+    """local names bound exactly once in fn by a plain `name = expr` (not a loop target, parameter, augmented or tuple assignment)"""
+    counts, vals = {}, {}
+    for n in ast.walk(fn):
+        if isinstance(n, ast.Assign):
+            for t in n.targets:
+                for x in ast.walk(t):
+                    if isinstance(x, ast.Name):
+                        counts[x.id] = counts.get(x.id, 0) + 1
+            if len(n.targets) == 1 and isinstance(n.targets[0], ast.Name):
+                vals[n.targets[0].id] = n.value
+        elif isinstance(n, (ast.AugAssign, ast.AnnAssign)):
+            for x in ast.walk(n.target):
+                if isinstance(x, ast.Name):
+                    counts[x.id] = counts.get(x.id, 0) + 2
+        elif isinstance(n, (ast.For, ast.comprehension)):
+            for x in ast.walk(n.target):
+                if isinstance(x, ast.Name):
+                    counts[x.id] = counts.get(x.id, 0) + 2
+        elif isinstance(n, ast.NamedExpr):
+            counts[n.target.id] = counts.get(n.target.id, 0) + 2
+        elif isinstance(n, ast.arg):
+            counts[n.arg] = counts.get(n.arg, 0) + 2
+        elif isinstance(n, (ast.With, ast.AsyncWith)):
+            for it in n.items:
+                if it.optional_vars is not None:
+                    for x in ast.walk(it.optional_vars):
+                        if isinstance(x, ast.Name):
+                            counts[x.id] = counts.get(x.id, 0) + 2
+    return {k: v for k, v in vals.items() if counts.get(k) == 1}
+
+
+def expand_locals(expr, fn, depth=3, only=None):
+    """copy of expr in which loads of single-definition locals of fn are replaced by their defining expressions (value semantics only:
+    use for shape recognition, never to reason about aliasing)"""
+    defs = single_defs(fn)
+
+    class T(ast.NodeTransformer):
+        def __init__(self, d):
+            self.d = d
+
+        def visit_Name(self, node):
+            if isinstance(node.ctx, ast.Load) and node.id in defs and self.d > 0 and (only is None or node.id in only):
+                return T(self.d - 1).visit(copy.deepcopy(defs[node.id]))
+            return node
+    return T(depth).visit(copy.deepcopy(expr))
+
+
+def _subst(expr, mapping):
+    class T(ast.NodeTransformer):
+        def visit_Name(self, node):
+            if isinstance(node.ctx, ast.Load) and node.id in mapping:
+                return copy.deepcopy(mapping[node.id])
+            return node
+    return T().visit(copy.deepcopy(expr))
+
+
+def helper_def(call, module_tree, scope=None):
+    """the FunctionDef a call `name(...)` refers to: a nested def of `scope` or a module-level function of the same module"""
+    if not (isinstance(call, ast.Call) and isinstance(call.func, ast.Name)):
+        return None
+    for root in ([scope] if scope is not None else []) + [module_tree]:
+        body = root.body if hasattr(root, 'body') else []
+        for n in (ast.walk(root) if root is scope else body):
+            if isinstance(n, ast.FunctionDef) and n.name == call.func.id and n is not scope:
+                return n
+    return None
+
+
+def helper_bindings(call, fdef):
+    """parameter -> argument expression, None when the call shape is not a plain positional / keyword call"""
+    params = [a.arg for a in fdef.args.posonlyargs + fdef.args.args]
+    if fdef.args.vararg or fdef.args.kwarg or any(isinstance(a, ast.Starred) for a in call.args) or len(call.args) > len(params):
+        return None
+    m = dict(zip(params, call.args))
+    for k in call.keywords:
+        if k.arg is None:
+            return None
+        m[k.arg] = k.value
+    defaults = fdef.args.defaults
+    for p, d in zip(params[len(params) - len(defaults):], defaults):
+        m.setdefault(p, d)
+    for p, d in zip([a.arg for a in fdef.args.kwonlyargs], fdef.args.kw_defaults):
+        if d is not None:
+            m.setdefault(p, d)
+    if any(p not in m for p in params):
+        return None
+    return m
+
+
+def helper_returns(call, module_tree, scope=None):
+    """every expression a same-module helper can return for this call, with parameters replaced by the call's arguments; None if not a helper call"""
+    fdef = helper_def(call, module_tree, scope)
+    if fdef is None:
+        return None
+    m = helper_bindings(call, fdef)
+    if m is None:
+        return None
+    out = []
+    for n in ast.walk(fdef):
+        if isinstance(n, ast.Return):
+            out.append(_subst(n.value, m) if n.value is not None else ast.Constant(value=None))
+    return out
+
+
+def attrs_read_of(fn, name, module_tree, depth=2):
+    """attribute names read on the object bound to `name` inside fn, following calls to same-module helpers that receive it as an argument"""
+    out = {n.attr for n in ast.walk(fn) if isinstance(n, ast.Attribute) and isinstance(n.value, ast.Name) and n.value.id == name}
+    if depth <= 0 or module_tree is None:
+        return out
+    for c in ast.walk(fn):
+        if isinstance(c, ast.Call) and isinstance(c.func, ast.Name):
+            fdef = helper_def(c, module_tree, fn)
+            if fdef is None or fdef is fn:
+                continue
+            m = helper_bindings(c, fdef)
+            if m is None:
+                continue
+            for p, a in m.items():
+                if isinstance(a, ast.Name) and a.id == name:
+                    out |= attrs_read_of(fdef, p, module_tree, depth - 1)
+    return out
+
+
+def inline_accumulator_helpers(fn, module_tree):
+    """
+    copy of fn in which calls to same-module helpers of the accumulator shape
+        def h(p..): acc = <const>; <statements updating acc>; return acc
+    are expanded at statement level:   T |= h(a..)  ->  <statements with acc := T>
+                                       X = C | h(a..) / X = h(a..)  ->  acc = C|<const>; <statements>; X = acc
+    (the inverse of an "extract method" refactoring; used for shape recognition only)
+    """
+    fn = copy.deepcopy(fn)
+
+    def shape(fdef):
+        body = strip_doc(fdef.body)
+        if len(body) < 2 or not isinstance(body[-1], ast.Return) or not isinstance(body[-1].value, ast.Name):
+            return None
+        acc = body[-1].value.id
+        init = body[0]
+        if not (isinstance(init, ast.Assign) and len(init.targets) == 1 and isinstance(init.targets[0], ast.Name) and init.targets[0].id == acc and
+                isinstance(init.value, ast.Constant)):
+            return None
+        if any(isinstance(n, ast.Return) for s in body[1:-1] for n in ast.walk(s)):
+            return None
+        return acc, init.value, body[1:-1]
+
+    def expand(call, mode, target, extra):
+        fdef = helper_def(call, module_tree)
+        if fdef is None:
+            return None
+        m = helper_bindings(call, fdef)
+        sh = shape(fdef)
+        if m is None or sh is None:
+            return None
+        acc, init, stmts = sh
+        if mode == 'or-into' and not (isinstance(init.value, int) and init.value == 0):
+            return None
+        name_map = dict(m)
+        if mode == 'or-into':
+            name_map[acc] = target
+        out = []
+
+        class S(ast.NodeTransformer):
+            def visit_Name(self, node):
+                if node.id in name_map:
+                    rep = copy.deepcopy(name_map[node.id])
+                    if isinstance(rep, ast.Name):
+                        rep.ctx = node.ctx
+                    elif not isinstance(node.ctx, ast.Load):
+                        return node
+                    return rep
+                return node
+        if mode == 'assign':
+            start = init if extra is None else ast.BinOp(left=extra, op=ast.BitOr(), right=init) if init.value else extra
+            out.append(ast.Assign(targets=[ast.Name(id=acc, ctx=ast.Store())], value=copy.deepcopy(start), lineno=call.lineno))
+        for s in stmts:
+            out.append(S().visit(copy.deepcopy(s)))
+        if mode == 'assign':
+            out.append(ast.Assign(targets=[copy.deepcopy(target)], value=ast.Name(id=acc, ctx=ast.Load()), lineno=call.lineno))
+        for o in out:
+            ast.copy_location(o, call)
+            ast.fix_missing_locations(o)
+        return out
+
+    def rewrite(body):
+        new = []
+        for st in body:
+            for fld in ('body', 'orelse', 'finalbody'):
+                sub = getattr(st, fld, None)
+                if isinstance(sub, list) and sub and isinstance(sub[0], ast.stmt):
+                    setattr(st, fld, rewrite(sub))
+            if isinstance(st, ast.Try):
+                for h in st.handlers:
+                    h.body = rewrite(h.body)
+            rep = None
+            if isinstance(st, ast.AugAssign) and isinstance(st.op, ast.BitOr) and isinstance(st.target, ast.Name) and isinstance(st.value, ast.Call):
+                rep = expand(st.value, 'or-into', ast.Name(id=st.target.id, ctx=ast.Load()), None)
+            elif isinstance(st, ast.Assign) and len(st.targets) == 1:
+                v = st.value
+                if isinstance(v, ast.Call):
+                    rep = expand(v, 'assign', st.targets[0], None)
+                elif isinstance(v, ast.BinOp) and isinstance(v.op, ast.BitOr):
+                    if isinstance(v.right, ast.Call) and not isinstance(v.left, ast.Call):
+                        rep = expand(v.right, 'assign', st.targets[0], v.left)
+                    elif isinstance(v.left, ast.Call) and not isinstance(v.right, ast.Call):
+                        rep = expand(v.left, 'assign', st.targets[0], v.right)
+            new += rep if rep is not None else [st]
+        return new
+    fn.body = rewrite(fn.body)
+    return fn
